@@ -113,15 +113,24 @@ def one_parser(name, parser, texts, expression, lr1):
     for text in texts:
         toks = tokens_of(text, expression)
         rec.action.gets = 0
-        res = rec.parse(toks)
+        exc = None
+        try:
+            res = rec.parse(toks)
+        except Exception as e:      # an exception from the real `parse` on a pinned stream is an observation:
+            res, exc = None, e      # the equation below then cannot hold and the proof gate sends the check
+            #                         to its model-free search for a failing input
         steps = rec.action.gets
+        w = "[" + ", ".join("⟨%d, %d⟩" % (sym(t.symbol), i) for i, t in enumerate(toks)) + "]"
+        if exc is not None:
+            r = lambda ren, exc=exc: '.internal "%s raised by the real Parser.parse"' % type(exc).__name__
+            runs.append((text, steps, w, r))
+            continue
         plain = parser.parse(toks)          # the untouched parser object must say the same
         if (res.error is None) != (plain.error is None) or (
                 res.error is not None and (res.error.code, res.error.index, res.error.state) !=
                 (plain.error.code, plain.error.index, plain.error.state)):
             raise common.InfraError("recording proxy changes the result of Parser.parse")
         index_of = dict((id(t), i) for i, t in enumerate(toks))
-        w = "[" + ", ".join("⟨%d, %d⟩" % (sym(t.symbol), i) for i, t in enumerate(toks)) + "]"
         if res.error is None:
             r = lambda ren, res=res, index_of=index_of: ".accept (%s)" % lean_tree(res.parse_tree, index_of, sym, lr1)
         else:
